@@ -278,8 +278,9 @@ class FrontEnd:
         APath.FS = list(files)
         self.contents = dict(files)
         self.opened = []
-        if cwd is not None:
-            APath.CWD, APath.STRICT = cwd, True
+        # (always with a working directory: the abstract file system then answers exists / is_dir / listings from the files
+        # given, and paths are normalised the way the operating system reads them)
+        APath.CWD, APath.STRICT = (cwd if cwd is not None else "/nowhere"), True
         if args is None:
             first = next(iter(files))
             root = "/" + "/".join(first.strip("/").split("/")[:2])
